@@ -1,9 +1,88 @@
 import Driver.Loop
+import Midgard.Model.TimeFormat
+import Midgard.Generated.TimeScaleTables
 
-/-! Driver for C02: placeholder until the model is written. -/
+/-! Driver for C02: the time-format model (decimal year uses the regenerated TAI-UTC table). -/
 namespace Driver.C02
+open Midgard.Proto Midgard.TimeArith Midgard.TimeFormat
+open Midgard.Generated.TimeScale (taiutc consts)
+
+def parseScale? : String → Option Scale
+  | "utc" => some .utc | "tai" => some .tai | "gps" => some .gps
+  | "tt" => some .tt | "tcg" => some .tcg | _ => none
+
+def textFmt? : String → Option TextFmt
+  | "isot" => some .isot | "iso" => some .iso | "yday" => some .yday | "date" => some .date
+  | "yydddsssss" => some .yyddd | "yyyydddsssss" => some .yyyyddd | _ => none
+
+def showJD (j : JD) : String := s!"{showRat j.jd1} {showRat j.jd2}"
+
+def toJds (fmt : String) (scale : Scale) (v : String) (v2 : String) : Option String := do
+  match fmt with
+  | "jd" =>
+    let a ← parseRat? v; let b ← if v2 = "-" then some 0 else parseRat? v2
+    pure (showJD (jdToJds a b))
+  | "mjd" =>
+    let a ← parseRat? v; let b ← if v2 = "-" then some 0 else parseRat? v2
+    pure (showJD (mjdToJds a b))
+  | "datetime" =>
+    let a ← parseInt? v; let b ← if v2 = "-" then some 0 else parseInt? v2
+    pure (showJD (dtToJds (a + b)))
+  | "gps_ws" =>
+    if scale ≠ .gps then pure "err" else
+    let a ← parseRat? v; let b ← parseRat? v2
+    pure (showJD (wsToJds a b))
+  | "gps_seconds" =>
+    if scale ≠ .gps ∨ v2 ≠ "-" then pure "err" else
+    let a ← parseRat? v
+    pure (showJD (gsToJds a))
+  | "jyear" =>
+    if v2 ≠ "-" then pure "err" else
+    let a ← parseRat? v
+    pure (showJD (jyToJds a))
+  | "decimalyear" =>
+    if v2 ≠ "-" then pure "err" else
+    let a ← parseRat? v
+    pure (showJD (dyToJds taiutc consts.tol scale a))
+  | _ =>
+    let f ← textFmt? fmt
+    if v2 ≠ "-" then pure "err" else
+    let s ← decodeHex? v
+    match textToJds f s with
+    | some j => pure (showJD j)
+    | none => pure "err"
+
+def fromJds (fmt : String) (scale : Scale) (j : JD) : Option String := do
+  match fmt with
+  | "jd" => pure (showRat (jdFromJds j))
+  | "mjd" => pure (showRat (mjdFromJds j))
+  | "datetime" => pure (toString (dtFromJds j))
+  | "gps_ws" =>
+    if scale ≠ .gps then pure "err" else
+    match wsFromJds j with
+    | some w => pure s!"{showRat w.week} {showRat w.seconds} {showRat w.day}"
+    | none => pure "err"
+  | "gps_seconds" =>
+    if scale ≠ .gps then pure "err" else
+    match gsFromJds j with
+    | some x => pure (showRat x)
+    | none => pure "err"
+  | "jyear" => pure (showRat (jyFromJds j))
+  | "decimalyear" => pure (showRat (dyFromJds taiutc consts.tol scale j))
+  | _ =>
+    let f ← textFmt? fmt
+    pure (encodeHex (textFromJds f j))
 
 def handle : List String → Option String
+  | ["c02", "tojds", fmt, scale, v, v2] => do
+    let s ← parseScale? scale
+    toJds fmt s v v2
+  | ["c02", "fromjds", fmt, scale, a, b] => do
+    let s ← parseScale? scale; let a ← parseRat? a; let b ← parseRat? b
+    fromJds fmt s ⟨a, b⟩
+  | ["c02", "jdintfrac", a, b] => do
+    let a ← parseRat? a; let b ← parseRat? b
+    pure s!"{showRat (jdInt ⟨a, b⟩)} {showRat (jdFrac ⟨a, b⟩)}"
   | _ => none
 
 end Driver.C02
